@@ -134,11 +134,11 @@ class C17(Check):
                 enc = ['latin-1', 'utf-8', 'utf-16', 'latin-1', 'utf-32'][(k // 250) % 5]
                 unit = 'abcdefgh' if enc != 'latin-1' else 'abcd\xe9fgh'
                 block = unit * ((1 << j) // 8)
-                strs = ['head', block, block[:1 << 18], 'tail']
+                strs = ['head', block, block[:1 << 18], 'tail'] if (k // 250) % 2 else ['', '', block, '', 'tail']
                 blob = ''.join(strs).encode(enc)
                 # cuts on the byte offsets where the 2**j-character block starts and ends
-                a = len(('head').encode(enc))
-                b = len(('head' + block).encode(enc))
+                a = len((strs[0]).encode(enc)) or 2
+                b = len((''.join(strs[:3]) if not strs[0] else 'head' + block).encode(enc))
                 yield dict(self._mk(enc, strs, (a, b), empties=False), exact_block=j)
                 continue
             if k % 250 == 125:
